@@ -67,6 +67,12 @@ CLAIMED.update({
     design_ref="§4 C03", note=PANIC_NOTE + " The cursor coordinates are assumed non-negative and TerminalState.size >= 1 (C09).",
     technique="static analysis: abstract interpretation with a flow-sensitive taint component over MIR + interprocedural lifting of boundedness obligations + call-graph SCC rule"),
 })
+CLAIMED.update({
+ "C08": dict(category="other",
+    text="Three structural necessary conditions, decided for all 44 undo operations and every history: (R-UNDO-SYM) the document locations that undo may write equal those that redo may write, computed by a parameter-relative effect analysis (access paths below the edit_state parameter, through callees, closures and dyn calls); (R-UNDO-SELF) a field of the operation record written by only one direction is read by the other one (capture-then-consume) - a record that one direction overwrites and the other never looks at no longer describes the edit after one round trip; (R-PUSH) push_plain_undo clears the redo stack on every pushing path, begin_typed_atomic_undo clears it unconditionally, push_undo_action applies before it records, UndoState::undo/redo move the operation to the other stack on every path after calling it, and dropping an AtomicUndoGuard reaches end_action. Not decided: that the restored values are the right ones, panics inside undo/redo on stale indices, whether every public edit is logged.",
+    design_ref="§4 C08", note=STRUCT_NOTE + " Write sets are may-sets over field-name paths (indices dropped).",
+    technique="static analysis: parameter-relative effect (write-set) analysis over the call graph + dominance / post-dominance rules on MIR"),
+})
 NOT_APPLICABLE = {p: PENDING for p in ["C%02d" % i for i in range(1, 21)]}
 NOT_APPLICABLE.update({
  "C05": "value-level: equality of pictures after save->load depends on run-time cell values along data-dependent paths of two separate programs (writer, reader); no structural clause is a genuine necessary condition that is not also a frozen-layout match (DESIGN §5)",
